@@ -266,6 +266,8 @@ class SpecMon(Monitor):
     def err(self, kind):
         self.q = ("ERR",)
         self.verdict = ("err", kind)
+        self.marks = {}
+        self.pend = None
 
     def u8(self, m, st, cid, bits=8):
         return m.mk_cell(st, cid, TABLES.get(TABLES.ident), 8, False)
@@ -313,7 +315,7 @@ class SpecMon(Monitor):
             if lab == "t":
                 return
             if lab == "sp":
-                self.exp["method"] = ("slice", self.marks["method_s"], here)
+                self.exp["method"] = ("slice", self.marks.pop("method_s"), here)
                 self.q = ("S1",)
                 return
             self.err("Token")
@@ -334,7 +336,7 @@ class SpecMon(Monitor):
             if lab == "u":
                 return
             if lab == "sp":
-                self.exp["path"] = ("utf8slice", self.marks["path_s"], here)
+                self.exp["path"] = ("utf8slice", self.marks.pop("path_s"), here)
                 self.q = ("S2",)
                 return
             self.err("Token")
@@ -560,7 +562,7 @@ class SpecMon(Monitor):
             self.store_header(m, st)
             if self.pend is not None:
                 self.bad(m, st, "order", "a header line was complete but not stored before the parser moved on")
-            self.q = ("L",)
+            self.to_line_start()
             lab2 = self.classify(m, st, cid)
             self.step(m, st, cid, lab2, here, after)
             return
@@ -568,13 +570,13 @@ class SpecMon(Monitor):
             if lab == "cr":
                 self.q = ("SK1", self.q[1])
             elif lab == "lf":
-                self.q = ("L",)
+                self.to_line_start()
             elif lab == "nul":
                 self.err(self.q[1])
             return
         if q == "SK1":
             if lab == "lf":
-                self.q = ("L",)
+                self.to_line_start()
             else:
                 self.err(self.q[1])
             return
@@ -648,12 +650,20 @@ class SpecMon(Monitor):
 
     def start_headers(self, after):
         self.phase = "headers"
-        self.marks["headers_s"] = after
+        self.marks = {}
+        self.flags.pop("obs", None)
+        self.q = ("L",)
+
+    def to_line_start(self):
+        """Back at a line start: positions of the previous line are no longer needed."""
+        self.marks = {}
+        self.flags.pop("started", None)
         self.q = ("L",)
 
     def complete(self, after):
         self.q = ("DONE",)
         self.verdict = ("complete", after)
+        self.marks = {}
 
     def none_stored(self, m, st):
         v = self.nstored
@@ -671,10 +681,12 @@ class SpecMon(Monitor):
             self.err(kind)
             return
         # the offending byte itself is re-examined by the skipper
+        self.marks = {}
+        self.flags.pop("started", None)
         if lab == "cr":
             self.q = ("SK1", kind)
         elif lab == "lf":
-            self.q = ("L",)
+            self.to_line_start()
         elif lab == "nul":
             self.err(kind)
         else:
@@ -685,7 +697,7 @@ class SpecMon(Monitor):
             self.q = (nxt,)
         else:
             self.store_header(m, st)
-            self.q = ("L",)
+            self.to_line_start()
 
     def store_header(self, m, st):
         self.pend = (self.marks["name_s"], self.marks["name_e"], self.marks["val_s"], self.marks["val_e"], self.flags.get("started", False))
@@ -702,7 +714,7 @@ class SpecMon(Monitor):
             if mask & WS:
                 return False
             self.store_header(m, st)
-            self.q = ("L",)
+            self.to_line_start()
         return True
 
     # ---- events from the implementation ------------------------------------------------------------
@@ -738,6 +750,9 @@ class SpecMon(Monitor):
             self.bad(m, st, "field", "field %s stored twice" % f)
         self.check_value(m, st, f, e, inner)
         self.got[f] = True
+        self.exp[f] = ("done",)
+        if e[0] == "val":
+            self.vals.pop(e[1], None)
 
     def check_value(self, m, st, f, e, v):
         if e[0] == "val":
@@ -876,7 +891,10 @@ class SpecMon(Monitor):
                 self.show_loc(st, rloc), self.show_loc(st, end), self.show_loc(st, vs), self.show_loc(st, ve)))
 
     def on_str(self, m, st, s, ok):
-        pass
+        # the one check the statement defers: UTF-8 validity of the request target, judged at its
+        # terminating SP
+        if self.kind == "request" and not ok and self.q[0] == "S2" and "path" in self.exp and "path" not in self.got:
+            self.err("Token")
 
     # ---- verdict at return ------------------------------------------------------------------------
     def finish(self, m, st):
@@ -919,16 +937,12 @@ class SpecMon(Monitor):
             self.check_partial_fields(m, st)
             return
         if kind == "err":
-            if self.kind == "request" and payload == "Token" and st.env.get("utf8_valid") is False and want != "err":
-                want, sv = "err", ("err", "Token")
             if want != "err":
                 self.bad(m, st, "verdict", "implementation returned Err(%s), reference says %s" % (payload, want if want != "complete" else "Complete"))
             if sv[1] != payload:
                 self.bad(m, st, "errkind", "implementation returned Err(%s), reference classifies the first offending byte as %s" % (payload, sv[1]))
             return
         # complete
-        if self.kind == "request" and st.env.get("utf8_valid") is False:
-            self.bad(m, st, "verdict", "Complete although the request target is not valid UTF-8")
         if want != "complete":
             self.bad(m, st, "verdict", "implementation returned Complete, reference says %s" % (("Err(%s)" % sv[1]) if want == "err" else "Partial"))
         n = payload["n"]
@@ -942,7 +956,7 @@ class SpecMon(Monitor):
             if not self.same_pos(st, got, nloc):
                 self.bad(m, st, "offset", "Complete(n) with n = %s, the reference head ends at %s" % (m.show_sym(n), self.show_loc(st, nloc)))
         for f, e in sim.exp.items():
-            if f not in self.got:
+            if f not in self.got and e != ("done",):
                 if f == "size":
                     if not self.same_value(m, st, payload.get("size"), sim.vals["size"]):
                         self.bad(m, st, "field", "chunk size value differs from the value of the digits")
